@@ -111,6 +111,7 @@ def corruptBy (v : K) (gs : List (K × K)) : K := gs.foldl (fun acc g => acc * (
 /-- the factor built from the reciprocal gains, in the same order -/
 def inverseFactor (gs : List (K × K)) : K := gs.foldl (fun acc g => acc * (g.1⁻¹ * star g.2⁻¹)) 1
 
+omit [DecidableEq K] in
 theorem corrupt_inverse (gs : List (K × K)) (h : ∀ g ∈ gs, g.1 ≠ 0 ∧ g.2 ≠ 0) :
     ∀ v c : K, gs.foldl (fun acc g => acc * (g.1 * star g.2)) v
         * gs.foldl (fun acc g => acc * (g.1⁻¹ * star g.2⁻¹)) c = v * c := by
